@@ -157,12 +157,13 @@ CLAIMED['C18'] = {
             'functions reachable from x12n_document, X12ContextReader.__init__/iter_segments and xmlx12_simple.convert in the '
             'name-based call graph is computed and proved closed and complete (induction over call paths), no reachable '
             'function contains a write to an object that outlives the call (module-level binding, class attribute, mutable '
-            'default argument or an attribute assigned one), and clock/random reads occur only in the two acknowledgement '
+            'default argument or an attribute assigned one), no reachable function lets the iteration order of a set (hash order) reach a '
+            'result (C18_no_hash_order_leak), and clock/random reads occur only in the two acknowledgement '
             'visit_root_pre methods and the HTML header. The summary is a syntactic over-approximation produced by my '
             'translator (trusted, not proved sound); what the theorem cannot see - hash seed, interpreter caches, logging, '
             'aliasing through containers - is covered only by the differential: random sequences of documents processed in one '
             'interpreter, with and without a reused params object and repeated documents, each output compared with a fresh '
-            'interpreter under a random PYTHONHASHSEED.',
+            'interpreter under a random PYTHONHASHSEED, and documents with several codes per level in fresh interpreters under six hash seeds.',
     'design_ref': 'DESIGN.md §6 C18, §11',
     'note': 'Partial: theorem is about the generated effect summary, not about CPython. Adding a persistent write or a clock '
             'read on a reachable path breaks the theorem; the differential then searches for a history that shows it.',
